@@ -11,7 +11,7 @@ import (
 
 func init() {
 	register("C47", []string{"."}, runC47)
-	propExplain["C47"] = "Decides the release clause of C47: every field of pebble.DB (including the fields of DB.mu) whose type offers a release method (Close, Unref, Stop, Unregister, a cancel function) is released by DB.Close or a function it calls — the field set is recomputed from the struct on every run, with documented exceptions for borrowed resources; every read-state/version reference is released or owned on every path (C04.P1–P3); an internal iterator whose construction fails closes itself (C45.P1). Does not decide goroutine termination (dynamic)."
+	propExplain["C47"] = "Decides the release clause of C47: every field of pebble.DB (including the fields of DB.mu) whose type offers a release method (Close, Unref, Stop, Unregister, a cancel function) is released by DB.Close or a function it calls — the field set is recomputed from the struct on every run, with documented exceptions for borrowed resources; every read-state/version reference is released or owned on every path (C04.P1–P3); an internal iterator whose construction fails closes itself (C45.P1). (W1) the loop in which Close waits on compact.cond tests every in-progress indicator of DB.mu.compact (the fields named …ingCount, recomputed from the struct, and flushing). Does not decide goroutine termination (dynamic)."
 	propTechnique["C47"] = "struct-field close-set agreement (types + SSA call reachability), resource pairing"
 }
 
@@ -152,6 +152,92 @@ func runC47(c *Ctx) {
 			[]string{"did:objProvider.Close", "did:fileCache.Close", "did:deletePacer.Close", "did:log.manager.Close", "did:versions.close", "did:marker.Close"})
 		if n == 0 {
 			c.Unresolved("C47.O1", "fsCloser.Close not found in DB.Close")
+		}
+	}
+	// C47.W1: Close returns only after all background work has stopped. The loop in which Close
+	// waits on compact.cond tests EVERY "in progress" indicator of DB.mu.compact — the fields named
+	// …ingCount (compactingCount, downloadingCount, …: recomputed from the struct) and flushing.
+	// A counter missing from the condition lets that kind of job outlive Close with its version and
+	// file-cache references.
+	{
+		compactF := c.Field("C47.W1", "p.DB.mu.compact")
+		st, _ := compactF.Type().Underlying().(*types.Struct)
+		required := map[*types.Var]bool{}
+		if st != nil {
+			for i := 0; i < st.NumFields(); i++ {
+				f := st.Field(i)
+				if strings.HasSuffix(f.Name(), "ingCount") || f.Name() == "flushing" {
+					required[f] = true
+				}
+			}
+		}
+		if len(required) < 3 {
+			c.Unresolved("C47.W1", "fewer than 3 in-progress indicators found in DB.mu.compact")
+		}
+		waits := instrs(closeFn, And(CallTo("sync.(*Cond).Wait"), Pred("on compact.cond", func(in ssa.Instruction) bool {
+			cc := getCallCommon(in)
+			if cc == nil || len(cc.Args) == 0 || st == nil {
+				return false
+			}
+			f := fieldOfValue(cc.Args[0])
+			for i := 0; i < st.NumFields(); i++ {
+				if st.Field(i) == f && f.Name() == "cond" {
+					return true
+				}
+			}
+			return false
+		})))
+		if len(waits) == 0 {
+			c.Unresolved("C47.W1", "DB.Close does not wait on compact.cond")
+		}
+		for _, w := range waits {
+			// the natural loop of the back edge leaving the block of the Wait
+			src := w.Block()
+			var header *ssa.BasicBlock
+			for _, sc := range src.Succs {
+				if sc.Dominates(src) {
+					header = sc
+				}
+			}
+			if header == nil {
+				c.Unresolved("C47.W1", "the wait on compact.cond in DB.Close is not in a loop")
+				continue
+			}
+			loop := map[*ssa.BasicBlock]bool{header: true}
+			work := []*ssa.BasicBlock{src}
+			for len(work) > 0 {
+				b := work[len(work)-1]
+				work = work[:len(work)-1]
+				if loop[b] {
+					continue
+				}
+				loop[b] = true
+				work = append(work, b.Preds...)
+			}
+			read := map[*types.Var]bool{}
+			for b := range loop {
+				for _, in := range b.Instrs {
+					if fa, ok := in.(*ssa.FieldAddr); ok {
+						if f := fieldVar(fa.X.Type(), fa.Field); f != nil && required[f] {
+							read[f] = true
+						}
+					}
+				}
+			}
+			var names []string
+			for f := range required {
+				names = append(names, f.Name())
+			}
+			sort.Strings(names)
+			for _, nm := range names {
+				for f := range required {
+					if f.Name() != nm {
+						continue
+					}
+					c.Ob("C47.W1", closeFn, "Close waits until compact."+nm+" shows no work in progress", c.P.Pos(w.Pos()), read[f],
+						map[bool]string{true: "", false: "the wait loop of DB.Close does not test compact." + nm + ": a job of that kind still running when Close is called outlives it (Close reports leaked references or panics in the file cache, and the goroutine keeps using the closed DB)"}[read[f]])
+				}
+			}
 		}
 	}
 	runC04Pairing(c)
